@@ -6,6 +6,7 @@ from sources import tlc_generate
 PLAN = {
     "C13": ["clifiles"],
     "C14": ["clifiles"],
+    "C15": ["configsearch"],
     "C19": ["exitcode", "threads", "clifiles"],
 }
 TRACE_SPEC = {}
@@ -66,6 +67,95 @@ def src_clifiles(tier, seed):
         for ent in sc["tree"]:
             if ent.get("kind") != "dir" and ent["class"] != "missing":
                 ent["expect"] = {"fmt": exp.get("%d|%s" % (n, ent["path"]))}
+    return scenarios, st
+
+
+CFG_SRC = b"do\nlocal   x = 's'\nend\n"
+ALL_MARKS = [0, 1, 2, 3, 4, 5, 11, 12, 13, 14, 15, 21, 22, 23, 24, 25, 31, 32, 33, 34, 40, 50]
+
+
+def mark_cfg(m):
+    return {} if m == 0 else {"indent_type": "Spaces", "indent_width": m}
+
+
+def toml_for(m):
+    return 'indent_type = "Spaces"\nindent_width = %d\n' % m
+
+
+def src_configsearch(tier, seed):
+    raw, st = tlc_generate("MC_ConfigSearch", "MC_ConfigSearch_%s.cfg" % tier, "g_configsearch_" + tier)
+    raw.sort(key=lambda c: json.dumps(c, sort_keys=True))
+    cand = _expected_formats([("k%d" % m, CFG_SRC, mark_cfg(m)) for m in ALL_MARKS])
+    names = {1: "up2", 2: "up2/up1", 3: "up2/up1/cwd", 4: "up2/up1/cwd/sub1", 5: "up2/up1/cwd/sub1/sub2"}
+    rel = {3: "", 4: "sub1/", 5: "sub1/sub2/"}
+    scenarios = []
+    for n, c in enumerate(raw):
+        sc = c["sc"]
+        tree = [{"path": names[5], "kind": "dir"}]
+        for i in range(1, 6):
+            lv = sc["lv"][i - 1]
+            if lv["toml"] in ("stylua", "both"):
+                tree.append({"path": names[i] + "/stylua.toml", "text": toml_for(i)})
+            if lv["toml"] in ("dot", "both"):
+                tree.append({"path": names[i] + "/.stylua.toml", "text": toml_for(10 + i)})
+            if lv["ec"] != "none":
+                tree.append({"path": names[i] + "/.editorconfig",
+                             "text": ("root = true\n\n" if lv["ec"] == "root" else "") + "[*.lua]\nindent_style = space\nindent_size = %d\n" % (20 + i)})
+        s = {"id": "cs%d" % n, "cwd": names[3]}
+        if sc["xdg"]:
+            tree.append({"path": "gx/stylua.toml", "text": toml_for(31)})
+        if sc["xdgs"]:
+            tree.append({"path": "gx/stylua/stylua.toml", "text": toml_for(32)})
+        if sc["xdg"] or sc["xdgs"]:
+            s["xdg"] = "gx"
+        if sc["home"]:
+            tree.append({"path": "gh/.config/stylua.toml", "text": toml_for(33)})
+        if sc["homes"]:
+            tree.append({"path": "gh/.config/stylua/stylua.toml", "text": toml_for(34)})
+        tree.append({"path": "gh/.keep", "text": ""})
+        s["home_in_tree"] = "gh"
+        argv = []
+        if sc["config_path"]:
+            tree.append({"path": "cfg40.toml", "text": toml_for(40)})
+            argv += ["--config-path", "../../../cfg40.toml"]
+        if sc["search_parent"]:
+            argv.append("--search-parent-directories")
+        if sc["no_ec"]:
+            argv.append("--no-editorconfig")
+        if sc["override"]:
+            argv += ["--indent-type", "Spaces", "--indent-width", "50"]
+        targets = []
+        seen_paths = set()
+        stdin = None
+        for tg in c["targets"]:
+            t = dict(tg)
+            if tg["kind"] in ("file", "dirfile"):
+                nm = "t%d.lua" % tg["level"]
+                pth = rel[tg["level"]] + nm
+                if pth in seen_paths:
+                    pth = rel[tg["level"]] + "u%d.lua" % tg["level"]
+                seen_paths.add(pth)
+                full = names[3] + "/" + pth
+                tree.append({"path": full, "b64": None, "text": CFG_SRC.decode(), "expect": dict(cand), "class": "raw"})
+                t["path"] = full
+                if tg["kind"] == "file":
+                    argv.append(pth)
+            elif tg["kind"] == "stdin":
+                stdin = {"text": CFG_SRC.decode()}
+                argv.append("-")
+            elif tg["kind"] == "stdinpath":
+                stdin = {"text": CFG_SRC.decode()}
+                argv += ["--stdin-filepath", rel[tg["level"]] + "t%d.lua" % tg["level"], "-"]
+            targets.append(t)
+        if any(t["kind"] == "dirfile" for t in targets):
+            argv.append(".")
+        for ent in tree:
+            ent.pop("b64", None)
+        s.update({"tree": tree, "argv": argv, "stdin": stdin, "stdout_expect": dict(cand) if stdin else None,
+                  "meta": {"kind": "config", "sc": sc, "targets": targets, "expect": c["expect"], "impl": c["impl"],
+                           "sig": "opts=%s;targets=%s" % ("+".join(k for k in ("config_path", "search_parent", "no_ec", "override") if sc[k]) or "none",
+                                                          "+".join("%s%d" % (t["kind"], t["level"]) for t in targets))}})
+        scenarios.append(s)
     return scenarios, st
 
 
@@ -191,6 +281,7 @@ def src_threads(tier, seed):
 
 
 SOURCES = {
+    "configsearch": src_configsearch,
     "clifiles": src_clifiles,
     "exitcode": src_exitcode,
     "threads": src_threads,
